@@ -1,43 +1,100 @@
-"""In-memory POSIX-ish file system used as the environment stub (crash-injectable)."""
-import posixpath, io, json as _json
+"""In-memory POSIX-like file system with crash injection (environment stub for C18/C19).
 
-class Crash(BaseException):  # not caught by `except Exception`
-    pass
+Granularity of interruption (one `tick` each): directory creation, file creation (an empty file becomes
+visible), data write (on a crash a torn prefix/suffix-cut of the data becomes visible), rename/replace, remove.
+Operations are atomic at that granularity and durable in program order; fsync / page-cache reordering is not
+modelled.  `crash_at` and `cut` may be symbolic ints.
+
+torn content on a crashing write:  cut >= 0 -> data[:cut]      (first `cut` characters reached the disk)
+                                   cut <  0 -> data[:len+cut]  (all but the last |cut| characters did)
+"""
+import io
+import posixpath
+
+
+class Crash(BaseException):
+    """Simulated power loss / kill -9.  BaseException so that `except Exception` in the code under test does
+    not swallow it."""
+
 
 class MemFS:
     def __init__(self):
-        self.dirs = {"/"}
-        self.files = {}       # path -> bytes/str content
+        self.dirs = ["/"]
+        self.files = {}        # path -> str  (paths are concrete; contents may be symbolic)
+        self.order = []        # creation order of files (deterministic listings)
         self.ops = 0
-        self.crash_at = None  # op index at which to crash (before the op takes effect)
-        self.torn = False     # if True a crashing write leaves a truncated file
+        self.crash_at = None
+        self.cut = 0
         self.log = []
+
+    # ---- crash machinery
     def tick(self, what):
         self.log.append(what)
-        if self.crash_at is not None and self.ops == self.crash_at:
-            self.ops += 1
+        n = self.ops
+        self.ops = n + 1
+        if self.crash_at is not None and n == self.crash_at:
             raise Crash(what)
-        self.ops += 1
-    # --- os-like API
-    def isdir(self, p): return posixpath.normpath(p) in self.dirs
+
+    def _torn(self, data):
+        c = self.cut
+        if c >= 0:
+            return data[:c] if c < len(data) else data[:max(len(data) - 1, 0)]
+        k = len(data) + c
+        return data[:k] if k > 0 else data[:0]
+
+    def _set(self, path, data):
+        if path not in self.files:
+            self.order.append(path)
+        self.files[path] = data
+
+    def create(self, path):
+        self.tick(("create", path))
+        self._set(path, "")
+
+    def write(self, path, data):
+        try:
+            self.tick(("write", path))
+        except Crash:
+            self._set(path, self._torn(data))
+            raise
+        self._set(path, data)
+
+    # ---- os / os.path / shutil
+    def isdir(self, p):
+        return posixpath.normpath(p) in self.dirs
+
+    def isfile(self, p):
+        return posixpath.normpath(p) in self.files
+
     def exists(self, p):
-        p = posixpath.normpath(p); return p in self.dirs or p in self.files
+        p = posixpath.normpath(p)
+        return p in self.dirs or p in self.files
+
     def makedirs(self, p, exist_ok=False):
         p = posixpath.normpath(p)
-        parts = p.strip("/").split("/")
+        if p in self.dirs:
+            if not exist_ok:
+                raise FileExistsError(p)
+            return
         cur = ""
-        for part in parts:
+        for part in p.strip("/").split("/"):
             cur += "/" + part
             if cur not in self.dirs:
                 self.tick(("mkdir", cur))
-                self.dirs.add(cur)
+                self.dirs.append(cur)
+
     def listdir(self, p):
         p = posixpath.normpath(p)
-        out = set()
-        for x in list(self.dirs) + list(self.files):
-            if x != p and posixpath.dirname(x) == p:
-                out.add(posixpath.basename(x))
+        if p not in self.dirs:
+            raise FileNotFoundError(p)
+        out = []
+        for x in self.dirs + self.order:
+            if x != p and posixpath.dirname(x) == p and (x in self.dirs or x in self.files):
+                b = posixpath.basename(x)
+                if b not in out:
+                    out.append(b)
         return sorted(out)
+
     def walk(self, root, topdown=True):
         root = posixpath.normpath(root)
         names = self.listdir(root)
@@ -46,51 +103,214 @@ class MemFS:
         yield root, dirs, files
         for d in dirs:
             yield from self.walk(posixpath.join(root, d))
-    def copy2(self, src, dst):
-        data = self.files[posixpath.normpath(src)]
+
+    def copy(self, src, dst):
+        src = posixpath.normpath(src)
         dst = posixpath.normpath(dst)
-        self.tick(("create", dst))
-        self.files[dst] = data[:0]
-        try:
-            self.tick(("write", dst))
-        except Crash:
-            raise
-        self.files[dst] = data
+        if src not in self.files:
+            raise FileNotFoundError(src)
+        if dst in self.dirs:
+            dst = posixpath.join(dst, posixpath.basename(src))
+        data = self.files[src]
+        self.create(dst)          # open(dst, 'wb') truncates / creates
+        self.write(dst, data)     # data copied; a crash here leaves a torn file under the FINAL name
         return dst
-    def open(self, path, mode="r", **kw):
+
+    def replace(self, src, dst):
+        src = posixpath.normpath(src)
+        dst = posixpath.normpath(dst)
+        self.tick(("replace", src, dst))
+        if src in self.files:
+            data = self.files.pop(src)
+            self.order.remove(src)
+            self._set(dst, data)
+        elif src in self.dirs:
+            # directory rename: move every entry below src
+            for d in list(self.dirs):
+                if d == src or d.startswith(src + "/"):
+                    self.dirs[self.dirs.index(d)] = dst + d[len(src):]
+            for f in list(self.order):
+                if f.startswith(src + "/"):
+                    data = self.files.pop(f)
+                    self.order[self.order.index(f)] = dst + f[len(src):]
+                    self.files[dst + f[len(src):]] = data
+        else:
+            raise FileNotFoundError(src)
+
+    def remove(self, p):
+        p = posixpath.normpath(p)
+        if p not in self.files:
+            raise FileNotFoundError(p)
+        self.tick(("remove", p))
+        del self.files[p]
+        self.order.remove(p)
+
+    def rmtree(self, p):
+        p = posixpath.normpath(p)
+        for f in list(self.order):
+            if f.startswith(p + "/"):
+                self.remove(f)
+        for d in sorted([d for d in self.dirs if d == p or d.startswith(p + "/")], reverse=True):
+            self.tick(("rmdir", d))
+            self.dirs.remove(d)
+
+    def open(self, path, mode="r", *a, **kw):
         path = posixpath.normpath(path)
         fs = self
-        if "w" in mode:
-            fs.tick(("create", path))
-            fs.files[path] = ""
+        if "w" in mode or "a" in mode or "x" in mode:
+            if posixpath.dirname(path) not in fs.dirs:
+                raise FileNotFoundError(path)
+            old = fs.files.get(path, "") if "a" in mode else ""
+            fs.create(path)
+
             class W(io.StringIO):
                 def close(s):
                     if not s.closed:
-                        fs.tick(("write", path))
-                        fs.files[path] = s.getvalue()
-                    super().close()
-                def __exit__(s, *a):
-                    if a[0] is None: s.close()
-                    else: io.StringIO.close(s)
+                        data = old + s.getvalue()
+                        io.StringIO.close(s)
+                        fs.write(path, data)
+
+                def __exit__(s, et, ev, tb):
+                    s.close()
             return W()
-        return io.StringIO(fs.files[path])
+        if path not in fs.files:
+            raise FileNotFoundError(path)
+        return _Reader(fs.files[path])
+
+
+class _Reader:
+    """minimal text reader that hands the (possibly symbolic) content out without copying through C"""
+
+    def __init__(self, data):
+        self.data = data
+        self.closed = False
+
+    def read(self, n=-1):
+        d, self.data = self.data, ""
+        return d
+
+    def readlines(self):
+        return self.read().splitlines(True)
+
+    def __iter__(self):
+        return iter(self.readlines())
+
+    def close(self):
+        self.closed = True
+
+    def __enter__(self):
+        return self
+
+    def __exit__(self, *a):
+        self.close()
+
 
 class FakePath:
-    def __init__(self, fs): self.fs = fs
-    def __getattr__(self, n): return getattr(posixpath, n)
-    def isdir(self, p): return self.fs.isdir(p)
-    def exists(self, p): return self.fs.exists(p)
-    def realpath(self, p): return posixpath.normpath(p)
+    def __init__(self, fs):
+        self.fs = fs
+
+    def __getattr__(self, n):
+        return getattr(posixpath, n)
+
+    def isdir(self, p):
+        return self.fs.isdir(p)
+
+    def isfile(self, p):
+        return self.fs.isfile(p)
+
+    def exists(self, p):
+        return self.fs.exists(p)
+
+    def realpath(self, p):
+        return posixpath.normpath(posixpath.join("/", p))
+
+    def abspath(self, p):
+        return posixpath.normpath(posixpath.join("/", p))
+
 
 class FakeOS:
     sep = "/"
+    pathsep = ":"
+
     def __init__(self, fs):
-        self.fs = fs; self.path = FakePath(fs)
-    def makedirs(self, p, exist_ok=False): return self.fs.makedirs(p, exist_ok)
-    def listdir(self, p): return self.fs.listdir(p)
-    def walk(self, p, topdown=True): return self.fs.walk(p, topdown)
+        self.fs = fs
+        self.path = FakePath(fs)
+
+    def makedirs(self, p, exist_ok=False, **kw):
+        return self.fs.makedirs(p, exist_ok)
+
+    def mkdir(self, p, *a, **kw):
+        return self.fs.makedirs(p, False)
+
+    def listdir(self, p):
+        return self.fs.listdir(p)
+
+    def walk(self, p, topdown=True, **kw):
+        return self.fs.walk(p, topdown)
+
+    def replace(self, a, b):
+        return self.fs.replace(a, b)
+
+    def rename(self, a, b):
+        return self.fs.replace(a, b)
+
+    def remove(self, p):
+        return self.fs.remove(p)
+
+    def unlink(self, p):
+        return self.fs.remove(p)
+
 
 class FakeShutil:
-    def __init__(self, fs): self.fs = fs
-    def copy2(self, a, b): return self.fs.copy2(a, b)
-    def copy(self, a, b): return self.fs.copy2(a, b)
+    def __init__(self, fs):
+        self.fs = fs
+
+    def copy2(self, a, b):
+        return self.fs.copy(a, b)
+
+    def copy(self, a, b):
+        return self.fs.copy(a, b)
+
+    def copyfile(self, a, b):
+        return self.fs.copy(a, b)
+
+    def move(self, a, b):
+        return self.fs.replace(a, b)
+
+    def rmtree(self, p, ignore_errors=False):
+        return self.fs.rmtree(p)
+
+
+class Patch:
+    """Swap `os`, `shutil`, `open` in the globals of the given modules for the fake FS; restore on exit."""
+
+    def __init__(self, fs, modules):
+        self.fs = fs
+        self.modules = modules
+        self.saved = []
+
+    def __enter__(self):
+        fos, fsh = FakeOS(self.fs), FakeShutil(self.fs)
+        for m in self.modules:
+            g = vars(m)
+            self.saved.append((m, {k: g.get(k, _MISSING) for k in ("os", "shutil", "open")}))
+            if "os" in g:
+                g["os"] = fos
+            if "shutil" in g:
+                g["shutil"] = fsh
+            g["open"] = self.fs.open
+        return self.fs
+
+    def __exit__(self, *a):
+        for m, old in self.saved:
+            g = vars(m)
+            for k, v in old.items():
+                if v is _MISSING:
+                    g.pop(k, None)
+                else:
+                    g[k] = v
+        self.saved = []
+        return False
+
+
+_MISSING = object()
